@@ -171,7 +171,7 @@ def check(ctx):
     # (c,d) replay on the real code (prediction fast path) + random streams (always traced)
     nrand, ndet, maxlen = (1500, 300, 120) if quick else (8000, 2000, 400)
     ndup = 600 if quick else 3000
-    info = drive(binp, ["--scenarios", scn, "--sample-every", str(max(1, nscn // (400 if quick else 2000))), "--random", str(nrand), "--det", str(ndet), "--dup", str(ndup), "--subtick", "400" if quick else "3000", "--burst", "4",
+    info = drive(binp, ["--scenarios", scn, "--sample-every", str(max(1, nscn // (400 if quick else 2000))), "--random", str(nrand), "--det", str(ndet), "--dup", str(ndup), "--subtick", "400" if quick else "3000", "--burst", "4", "--nowriter", "60" if quick else "400",
                         "--seed", str(ctx.seed), "--max-len", str(maxlen)], trace)
     # (e) TLC validates every recorded run against the contract
     v = c.validate_trace(ctx, "sorter", "SorterTrace.tla", trace, timeout=3000)
@@ -183,7 +183,7 @@ def check(ctx):
     v.res.out = ""
     ctx.add_tlc("trace-validation", v.res)
     cases = c.split_cases(trace)
-    ctx.evaluations = info["replayed"] + info["random"] + info["det"] + info["dup"] + info["subtick"] + 2 * 4 + len(info["burst_sizes"])
+    ctx.evaluations = info["replayed"] + info["random"] + info["det"] + info["dup"] + info["subtick"] + info["nowriter"] + 2 * 4 + len(info["burst_sizes"])
     ctx.traces_validated = info["cases"] - len(v.violations)
     ctx.rule = ("a case = one call of buffer_sort_messages on one (stream, lifecycle table, window, D); TLC scenarios: every "
                 "complete behaviour of the bounded Sorter models, executed on the real code, judged by the model-checked "
@@ -197,7 +197,7 @@ def check(ctx):
             seen.add(json.dumps([h["W"], h["D"], h["table"], h["msgs"]], sort_keys=True))
     ctx.distinct_nontrivial = cov["len_ge2"] + len(seen)
     ctx.exhaustive = True
-    for k in ("replayed", "fast_path", "slow_path", "drift", "drift_dup_index", "sampled", "random", "det", "det_skipped", "dup", "subtick"):
+    for k in ("replayed", "fast_path", "slow_path", "drift", "drift_dup_index", "sampled", "random", "det", "det_skipped", "dup", "subtick", "nowriter"):
         ctx.extra[k] = info[k]
     ctx.extra["design_conformance"] = {"steps": info["replayed"], "mismatches": info["drift"],
                                        "expected_tie_order_drifts_with_repeated_index": info["drift_dup_index"]}
